@@ -77,6 +77,10 @@ impl Log {
         self.n += 1;
     }
 }
+/// bit pattern with NaNs canonicalised (CBMC leaves a NaN's payload unconstrained across f64 <-> bits moves)
+fn canon(f: f64) -> u64 {
+    if f.is_nan() { 0x7ff8_0000_0000_0000 } else { f.to_bits() }
+}
 fn id(s: &str) -> u8 {
     if s.len() == 1 { s.as_bytes()[0] } else { 0xff }
 }
@@ -115,11 +119,11 @@ impl ValueWriter for RecVw<'_> {
                 }
                 Observation::Floating(f) => {
                     e.obs_kind[i] = 2;
-                    e.obs_bits[i] = f.to_bits();
+                    e.obs_bits[i] = canon(f);
                 }
                 Observation::Repeated { total, occurrences } => {
                     e.obs_kind[i] = 3;
-                    e.obs_bits[i] = total.to_bits();
+                    e.obs_bits[i] = canon(total);
                     e.obs_occ[i] = occurrences;
                 }
                 _ => panic!(),
